@@ -1,2 +1,511 @@
-def check_no_internal_escape(ctx, rule):
-    pass
+"""OWN -- ownership / freshness analysis (properties C16, C04-TS8, C08/C09 "source not written").
+
+Two-point taint per value: F (holds only objects created inside the function: nothing the caller, `self` or a
+parameter owns is reachable from it) and B (may reference an object owned elsewhere).  Flow-insensitive over the
+locals of a function (a local is B if any definition or mutation anywhere in the function may put a B value into
+it: sound without alias analysis for the aliasing patterns of this code base), inter-procedural through summaries
+computed to a least fixpoint:
+    ret(f)      in {FRESH, DERIVED}   FRESH: the result is F even when self and all parameters are B
+    retains(C)  set of __init__ parameters whose (non-scalar) value ends up stored in the new object
+Scalars (ints, strings, None, enum members -- decided by the numeric-kind engine's per-node kinds and the scalar
+field table of Message) are F: sharing an immutable value cannot make two objects interfere.
+"""
+from __future__ import annotations
+
+import ast
+
+from ..astutil import attr_chain, call_method, short, src
+from ..model import Program, FuncInfo, AnalysisError, walk_local
+from ..report import Ctx
+from .kinds import KindEngine, Kind
+
+PURE_METHODS = {"index", "get", "count", "keys", "values", "items", "copy", "sort", "reverse", "pop", "remove", "clear",
+                "is_integer", "startswith", "endswith", "split", "join", "format", "info", "debug", "warning", "error"}
+SCALAR_BUILTINS = {"len", "int", "float", "str", "bool", "round", "abs", "isinstance", "hasattr", "any", "all", "sum",
+                   "ord", "repr", "print", "range", "hash", "id", "type", "divmod", "callable"}
+PASS_BUILTINS = {"list", "sorted", "reversed", "enumerate", "zip", "next", "iter", "tuple", "set", "dict", "min", "max",
+                 "filter", "map", "getattr"}
+SCALAR_ATOMS = {"int", "float", "bool", "str", "none", "arg"}
+
+
+class OwnershipEngine:
+    def __init__(self, program: Program, kinds: KindEngine | None = None):
+        self.p = program
+        if kinds is None:
+            kinds = KindEngine(program)
+            kinds.solve()
+        self.k = kinds
+        msg = program.cls("Message")
+        init = msg.methods.get("__init__")
+        if init is None:
+            raise AnalysisError("Message.__init__ not found")
+        self.msg_fields = []
+        for n in init.node.body:
+            if isinstance(n, ast.Assign) and len(n.targets) == 1:
+                ch = attr_chain(n.targets[0])
+                if ch and len(ch) == 2 and ch[0] == "self" and ch[1] not in self.msg_fields:
+                    self.msg_fields.append(ch[1])
+        self.ret: dict[str, str] = {}
+        self.retains: dict[str, set[str]] = {}
+        self.b_locals: dict[str, set[str]] = {}
+        self.why: dict[tuple[str, str], str] = {}
+        self._solve()
+
+    # ------------------------------------------------------------------------------------------
+    def scalar_kind(self, k: Kind | None) -> bool:
+        if not k:
+            return False
+        for x in k:
+            if isinstance(x, tuple):
+                if x[0] == "inst" and x[1] in self.p.enums:
+                    continue
+                return False
+            if x not in SCALAR_ATOMS:
+                return False
+        return True
+
+    def node_scalar(self, e: ast.AST) -> bool:
+        return self.scalar_kind(self.k.node_kinds.get(id(e)))
+
+    def _solve(self) -> None:
+        funcs = [fi for fi in self.p.all_functions() if fi.parent_func is None]
+        for fi in funcs:
+            self.ret[fi.qualname] = "FRESH"
+        for ci in self.p.classes.values():
+            self.retains[ci.name] = set()
+        for rnd in range(30):
+            changed = False
+            for fi in funcs:
+                an = _FuncTaint(self, fi)
+                an.run()
+                self.b_locals[fi.qualname] = an.B
+                r = "DERIVED" if an.ret_b else "FRESH"
+                if r != self.ret[fi.qualname]:
+                    if r == "DERIVED":
+                        self.ret[fi.qualname] = r
+                        changed = True
+                if an.ret_why:
+                    self.why[(fi.qualname, "ret")] = an.ret_why
+                if fi.name == "__init__" and fi.cls:
+                    if not an.retained <= self.retains[fi.cls]:
+                        self.retains[fi.cls] |= an.retained
+                        changed = True
+            if not changed:
+                self.rounds = rnd + 1
+                return
+        raise AnalysisError("ownership fixpoint did not stabilise")
+
+    def ctor_retains(self, cls: str) -> tuple[FuncInfo | None, set[str]]:
+        init = self.p.lookup_method(cls, "__init__")
+        if init is None:
+            return None, set()
+        return init, self.retains.get(init.cls, set())
+
+    def explain(self, qualname: str, depth: int = 0, seen=None) -> list[str]:
+        seen = seen or set()
+        if qualname in seen or depth > 5:
+            return []
+        seen.add(qualname)
+        w = self.why.get((qualname, "ret"))
+        return [f"{qualname}: {w}"] if w else []
+
+
+class _FuncTaint:
+    def __init__(self, eng: OwnershipEngine, fi: FuncInfo):
+        self.e = eng
+        self.fi = fi
+        self.B: set[str] = set()
+        self.ret_b = False
+        self.ret_why = ""
+        self.retained: set[str] = set()
+        a = fi.node.args
+        self.params = [x.arg for x in a.posonlyargs + a.args + a.kwonlyargs] + ([a.vararg.arg] if a.vararg else []) + ([a.kwarg.arg] if a.kwarg else [])
+        self.note: dict[str, str] = {}
+        self.overrides: list[dict] = []
+
+    def run(self) -> None:
+        for p in self.params:
+            if self.e.scalar_kind(self.e.k.param_kinds.get((self.fi.qualname, p))) or self.scalar_annotation(p):
+                continue
+            self.B.add(p)
+            self.note[p] = f"parameter `{p}`"
+        body = list(walk_local(self.fi.node))
+        # nested closures share locals
+        for n in list(body):
+            if isinstance(n, ast.FunctionDef):
+                body.extend(walk_local(n))
+        for _ in range(40):
+            before = len(self.B)
+            for n in body:
+                self.visit(n)
+            if len(self.B) == before:
+                break
+        # returns
+        for n in body:
+            if isinstance(n, ast.Return) and n.value is not None:
+                t, why = self.T(n.value)
+                if t:
+                    self.ret_b = True
+                    self.ret_why = self.ret_why or f"returns `{short(n.value, 60)}` ({why})"
+            elif isinstance(n, (ast.Yield, ast.YieldFrom)) and n.value is not None:
+                t, why = self.T(n.value)
+                if t:
+                    self.ret_b = True
+                    self.ret_why = self.ret_why or f"yields `{short(n.value, 60)}` ({why})"
+        # retention (for __init__): parameters stored into self / handed to super().__init__
+        if self.fi.name == "__init__":
+            for n in body:
+                if isinstance(n, (ast.Assign, ast.AnnAssign)) and getattr(n, "value", None) is not None:
+                    tg = n.targets if isinstance(n, ast.Assign) else [n.target]
+                    if any((attr_chain(t) or [""])[0] == "self" and len(attr_chain(t) or []) >= 2 for t in tg):
+                        self.retained |= self.param_sources(n.value)
+                elif isinstance(n, ast.Call):
+                    recv, name = call_method(n)
+                    ch = attr_chain(n.func) or []
+                    root = ch[0] if ch else None
+                    is_super = isinstance(recv, ast.Call) and isinstance(recv.func, ast.Name) and recv.func.id == "super"
+                    if is_super and name == "__init__" and self.fi.cls:
+                        for b in self.e.p.classes[self.fi.cls].bases:
+                            binit, bret = self.e.ctor_retains(b)
+                            if binit is None:
+                                continue
+                            bparams = binit.params[1:]
+                            for i, a in enumerate(n.args):
+                                if i < len(bparams) and bparams[i] in bret:
+                                    self.retained |= self.param_sources(a)
+                            for kw in n.keywords:
+                                if kw.arg in bret:
+                                    self.retained |= self.param_sources(kw.value)
+                    elif root == "self" and len(ch) >= 3 and name not in PURE_METHODS:
+                        # self.attr.method(arg): e.g. self._messages.extend(messages)
+                        for a in list(n.args) + [k.value for k in n.keywords]:
+                            self.retained |= self.param_sources(a)
+
+    def scalar_annotation(self, p: str) -> bool:
+        a = self.fi.node.args
+        for arg in a.posonlyargs + a.args + a.kwonlyargs:
+            if arg.arg == p and arg.annotation is not None:
+                names = {n.id for n in ast.walk(arg.annotation) if isinstance(n, ast.Name)}
+                consts = {n.value for n in ast.walk(arg.annotation) if isinstance(n, ast.Constant)}
+                if isinstance(arg.annotation, ast.Constant) and isinstance(arg.annotation.value, str):
+                    try:
+                        tree = ast.parse(arg.annotation.value, mode="eval")
+                        names = {n.id for n in ast.walk(tree) if isinstance(n, ast.Name)}
+                    except SyntaxError:
+                        return False
+                return bool(names) and names <= {"str", "Path", "int", "float", "bool", "None"} | set(self.e.p.enums)
+        return False
+
+    def param_sources(self, e: ast.AST) -> set[str]:
+        """Parameters whose non-scalar value may be reachable from expression e."""
+        out = set()
+        t, _ = self.T(e)
+        if not t:
+            return out
+        for n in ast.walk(e):
+            if isinstance(n, ast.Name) and n.id in self.params and n.id != self.params[0 if self.fi.cls else -1 if False else 0]:
+                if not self.e.node_scalar(n):
+                    out.add(n.id)
+        if self.fi.cls and self.params:
+            out.discard(self.params[0])
+        return out
+
+    # ------------------------------------------------------------------ taint of an expression: (is_B, why)
+    def T(self, e: ast.AST | None) -> tuple[bool, str]:
+        eng = self.e
+        if e is None or isinstance(e, (ast.Constant, ast.Lambda, ast.JoinedStr, ast.Compare)):
+            return False, ""
+        if isinstance(e, (ast.Name, ast.Attribute, ast.Subscript, ast.Call)) and eng.node_scalar(e):
+            return False, ""
+        if isinstance(e, ast.Name):
+            for ov in reversed(self.overrides):
+                if e.id in ov:
+                    return ov[e.id]
+            if e.id in self.B:
+                return True, self.note.get(e.id, f"`{e.id}`")
+            return False, ""
+        if isinstance(e, ast.Attribute):
+            ch = attr_chain(e)
+            if ch and ch[0] in eng.p.enums:
+                return False, ""
+            if e.attr in eng.msg_fields:
+                return False, ""        # scalar field of a message (OWN3 checks that they stay scalar)
+            if ch and ch[0] in eng.p.classes and len(ch) == 2:
+                return False, ""        # class attribute / enum
+            t, why = self.T(e.value)
+            return t, (f"{short(e, 50)} of {why}" if t else "")
+        if isinstance(e, ast.Subscript):
+            return self.T(e.value)
+        if isinstance(e, ast.Starred):
+            return self.T(e.value)
+        if isinstance(e, (ast.List, ast.Tuple, ast.Set)):
+            return self.any_T(e.elts)
+        if isinstance(e, ast.Dict):
+            return self.any_T([x for x in list(e.keys) + list(e.values) if x is not None])
+        if isinstance(e, (ast.BinOp,)):
+            return self.any_T([e.left, e.right])
+        if isinstance(e, ast.BoolOp):
+            return self.any_T(e.values)
+        if isinstance(e, ast.UnaryOp):
+            return self.T(e.operand)
+        if isinstance(e, ast.IfExp):
+            return self.any_T([e.body, e.orelse])
+        if isinstance(e, (ast.ListComp, ast.SetComp, ast.GeneratorExp)):
+            self.overrides.append(self.bind_comp(e.generators))
+            try:
+                return self.T(e.elt)
+            finally:
+                self.overrides.pop()
+        if isinstance(e, ast.DictComp):
+            self.overrides.append(self.bind_comp(e.generators))
+            try:
+                return self.any_T([e.key, e.value])
+            finally:
+                self.overrides.pop()
+        if isinstance(e, ast.NamedExpr):
+            return self.T(e.value)
+        if isinstance(e, (ast.Yield, ast.Await)):
+            return True, "value sent into the generator"
+        if isinstance(e, ast.Call):
+            return self.T_call(e)
+        return True, f"unmodelled expression {type(e).__name__}"
+
+    def any_T(self, es) -> tuple[bool, str]:
+        for x in es:
+            t, why = self.T(x)
+            if t:
+                return True, why
+        return False, ""
+
+    def bind_comp(self, gens) -> dict:
+        """Comprehension variables live in their own scope: returned as an override map, never as function locals."""
+        ov: dict = {}
+        self.overrides.append(ov)
+        try:
+            for g in gens:
+                t, why = self.T(g.iter)
+                for x in ast.walk(g.target):
+                    if isinstance(x, ast.Name):
+                        ov[x.id] = (bool(t) and not self.e.node_scalar(x), f"element of {why}" if t else "")
+        finally:
+            self.overrides.pop()
+        return ov
+
+    def mark(self, name: str, why: str) -> None:
+        if name not in self.B:
+            self.B.add(name)
+            self.note[name] = why
+
+    def recv_classes(self, recv: ast.AST) -> list[str] | None:
+        k = self.e.k.node_kinds.get(id(recv))
+        if not k:
+            return None
+        insts = [x[1] for x in k if isinstance(x, tuple) and x[0] == "inst"]
+        if insts and "obj" not in k and "arg" not in k:
+            return insts
+        return None
+
+    def T_call(self, c: ast.Call) -> tuple[bool, str]:
+        eng = self.e
+        recv, name = call_method(c)
+        args = list(c.args) + [k.value for k in c.keywords]
+        ch = attr_chain(c.func)
+        if recv is None:
+            if name in SCALAR_BUILTINS:
+                return False, ""
+            if name in PASS_BUILTINS:
+                return self.any_T(args)
+            if name in eng.p.classes:
+                return self.T_ctor(c, name)
+            if name in eng.p.module_funcs:
+                if eng.ret[name] == "FRESH":
+                    return False, ""
+                t, why = self.any_T(args)
+                return t, (f"{name}() derives its result from {why}" if t else "")
+            if name == "super":
+                return True, "super()"
+            nested = next((n for n in walk_local(self.fi.node) if isinstance(n, ast.FunctionDef) and n.name == name), None)
+            if nested is not None:
+                return False, ""
+            return self.any_T(args)
+        if ch and ch[0] == "copy" and len(ch) == 2:
+            if ch[1] == "deepcopy":
+                return False, ""
+            return self.any_T(args)     # copy.copy: new container, same elements
+        if ch and ch[0] in ("math", "np", "numpy", "itertools", "json", "mido", "plt"):
+            if ch[0] == "itertools":
+                return self.any_T(args)
+            return False, ""
+        if ch and ch[-1] == "__class__" and self.fi.cls:
+            return self.T_ctor(c, self.fi.cls)
+        if ch and len(ch) == 2 and ch[0] in eng.p.classes:
+            m = eng.p.lookup_method(ch[0], name)
+            if m is not None:
+                if eng.ret[m.qualname] == "FRESH":
+                    return False, ""
+                t, why = self.any_T(args)
+                return t, (f"{m.qualname}() derives its result from {why}" if t else "")
+        # method call on an object
+        classes = self.recv_classes(recv)
+        targets = []
+        if isinstance(recv, ast.Name) and recv.id == "self" and self.fi.cls:
+            classes = [self.fi.cls] + [ci.name for ci in eng.p.classes.values() if self.fi.cls in eng.p.mro(ci.name)[1:]]
+        if classes is not None:
+            for cn in classes:
+                m = eng.p.lookup_method(cn, name)
+                if m is not None and m not in targets:
+                    targets.append(m)
+                for ci in eng.p.classes.values():
+                    if cn in eng.p.mro(ci.name)[1:] and name in ci.methods and ci.methods[name] not in targets:
+                        targets.append(ci.methods[name])
+        else:
+            targets = eng.p.methods_named(name)
+        if targets:
+            derived = [m for m in targets if eng.ret[m.qualname] == "DERIVED"]
+            if not derived:
+                return False, ""
+            t, why = self.any_T([recv] + args)
+            return t, (f"{derived[0].qualname}() may return objects owned by its receiver/arguments, here {why}" if t else "")
+        if name in ("get", "pop", "copy", "items", "values", "keys", "setdefault", "__getitem__"):
+            return self.any_T([recv] + args)
+        if name in ("index", "count", "is_integer", "item", "split", "join", "format", "replace", "strip", "startswith",
+                    "endswith", "lower", "upper", "append", "extend", "insert", "sort", "remove", "clear", "reverse"):
+            return False, ""
+        return self.any_T([recv] + args)
+
+    def T_ctor(self, c: ast.Call, cls: str) -> tuple[bool, str]:
+        init, retained = self.e.ctor_retains(cls)
+        if init is None:
+            return self.any_T(list(c.args) + [k.value for k in c.keywords])
+        params = init.params[1:]
+        for i, a in enumerate(c.args):
+            if isinstance(a, ast.Starred):
+                t, why = self.T(a)
+                if t:
+                    return True, why
+                continue
+            if i < len(params) and params[i] in retained:
+                t, why = self.T(a)
+                if t:
+                    return True, f"{cls}({params[i]}=...) keeps {why}"
+        for kw in c.keywords:
+            if kw.arg is None or kw.arg in retained:
+                t, why = self.T(kw.value)
+                if t:
+                    return True, f"{cls}({kw.arg}=...) keeps {why}"
+        return False, ""
+
+    # ------------------------------------------------------------------ flows into locals
+    def root_name(self, e: ast.AST) -> str | None:
+        while isinstance(e, (ast.Attribute, ast.Subscript)):
+            e = e.value
+        return e.id if isinstance(e, ast.Name) else None
+
+    def flow_into(self, target: ast.AST, value: ast.AST | None, vt: tuple[bool, str] | None = None) -> None:
+        t, why = vt if vt is not None else self.T(value)
+        if not t:
+            return
+        if isinstance(target, ast.Name):
+            if not self.e.node_scalar(target):
+                self.mark(target.id, why)
+        elif isinstance(target, (ast.Tuple, ast.List)):
+            for x in target.elts:
+                self.flow_into(x, None, (t, why))
+        elif isinstance(target, ast.Starred):
+            self.flow_into(target.value, None, (t, why))
+        elif isinstance(target, (ast.Attribute, ast.Subscript)):
+            r = self.root_name(target)
+            if r is not None and r != "self":
+                self.mark(r, f"stores {why}")
+
+    def visit(self, n: ast.AST) -> None:
+        if isinstance(n, ast.Assign):
+            vt = self.T(n.value)
+            for t in n.targets:
+                self.flow_into(t, None, vt)
+        elif isinstance(n, ast.AnnAssign) and n.value is not None:
+            self.flow_into(n.target, n.value)
+        elif isinstance(n, ast.AugAssign):
+            self.flow_into(n.target, n.value)
+        elif isinstance(n, ast.For):
+            self.flow_into(n.target, n.iter)
+        elif isinstance(n, ast.With):
+            for it in n.items:
+                if it.optional_vars is not None:
+                    self.flow_into(it.optional_vars, it.context_expr)
+        elif isinstance(n, ast.NamedExpr):
+            self.flow_into(n.target, n.value)
+        elif isinstance(n, ast.Call):
+            recv, name = call_method(n)
+            if recv is not None and name not in PURE_METHODS:
+                r = self.root_name(recv)
+                if r is not None and r != "self" and r not in self.B:
+                    args = list(n.args) + [k.value for k in n.keywords]
+                    t, why = self.any_T(args)
+                    if t:
+                        self.mark(r, f"receives {why} through .{name}(...)")
+            # a function that mutates a list parameter with another argument (binary_insort(collection, message))
+            if recv is None and name in self.e.p.module_funcs and len(n.args) >= 2:
+                r = self.root_name(n.args[0])
+                if r is not None and r != "self" and r not in self.B:
+                    t, why = self.any_T(n.args[1:])
+                    if t:
+                        self.mark(r, f"receives {why} through {name}(...)")
+
+
+# ================================================================================================
+ROUTES = ["Message.copy", "AbstractSequence.copy", "Sequence.copy", "Bar.copy", "Track.copy", "Composition.copy",
+          "RelativeSequence.split", "Sequence.split", "Sequence.sequences_split_bars",
+          "AbsoluteSequence.to_relative_sequence", "RelativeSequence.to_absolute_sequence"]
+
+_cache: dict[int, OwnershipEngine] = {}
+
+
+def engine_for(ctx: Ctx) -> OwnershipEngine:
+    key = id(ctx.p)
+    if key not in _cache:
+        _cache.clear()
+        _cache[key] = OwnershipEngine(ctx.p)
+    return _cache[key]
+
+
+def check_routes(ctx: Ctx, rule: str = "OWN1", routes=None) -> None:
+    eng = engine_for(ctx)
+    p = ctx.p
+    for q in routes or ROUTES:
+        fi = p.func(q)
+        ctx.analysed(fi)
+        if eng.ret[q] == "FRESH":
+            ctx.ok(rule, q, "returns only objects created by the call (messages copied, new lists)")
+            ctx.sample({"route": q, "result": "fresh"})
+        else:
+            why = eng.why.get((q, "ret"), "")
+            ctx.violation(rule, q, function=q, construct="derivation route returns objects shared with its source",
+                          message=f"the value returned by {q} may reference message objects or lists owned by the "
+                                  f"source: {why}", file=fi.file, node=fi.node, path=[why] if why else [])
+
+
+def check_no_internal_escape(ctx: Ctx, rule: str = "TS8") -> None:
+    """Public Sequence accessors (other than the documented abs/rel/messages_* and the derivation routes judged by
+    C16) must not hand out internal message objects."""
+    eng = engine_for(ctx)
+    p = ctx.p
+    ci = p.cls("Sequence")
+    documented = {"abs", "rel", "messages_abs", "messages_rel", "copy", "split", "__init__"}
+    n = 0
+    for m, fi in ci.methods.items():
+        if fi.is_static or m in documented or m.startswith("_"):
+            continue
+        has_value_return = any(isinstance(x, ast.Return) and x.value is not None for x in walk_local(fi.node))
+        if not has_value_return:
+            continue
+        n += 1
+        if eng.ret[fi.qualname] == "FRESH":
+            ctx.ok(rule, fi.qualname, "returns no internal message object")
+        else:
+            why = eng.why.get((fi.qualname, "ret"), "")
+            ctx.violation(rule, fi.qualname, function=fi.qualname,
+                          construct="public accessor returns internal message objects",
+                          message=f"{fi.qualname} may hand out message objects stored inside the sequence (editing them "
+                                  f"bypasses the view invalidation): {why}", file=fi.file, node=fi.node)
+    ctx.floor("public value-returning Sequence methods", n, 10)
